@@ -27,8 +27,9 @@ R == Rec[l]
 V(f) == ViewStr = "all" \/ f \in Range(Meta.views[ViewStr])
 
 \* a failed binding prints what the model expected (only ever evaluated to FALSE on a rejected step)
-Chk(name, key, cond, modelval) ==
-    IF cond THEN TRUE ELSE PrintT("MISMATCH " \o ToString(<<"line", l, "field", name, key, "model", modelval>>)) /\ FALSE
+ChkL(ln, name, key, cond, modelval) ==
+    IF cond THEN TRUE ELSE PrintT("MISMATCH " \o ToString(<<"line", ln, "field", name, key, "model", modelval>>)) /\ FALSE
+Chk(name, key, cond, modelval) == ChkL(l, name, key, cond, modelval)
 
 NoDup(s) == Len(s) = Cardinality(Range(s))
 Ids(s) == [i \in 1..Len(s) |-> s[i].id]
@@ -38,42 +39,42 @@ Pairs2(f) == {<<k, f[k]>> : k \in DOMAIN f}
 (* The dump p (= R.post) against the model state.  Written over the         *)
 (* unprimed variables and applied primed to a rigid copy of the dump.       *)
 
-GroupOK(e) ==
+GroupOK(e, ln) ==
     LET g == e.g IN
-    /\ V("relays") => Chk("rl", g, IF Exists(g) THEN e.rlok = 1 /\ Range(e.rl) = relays[g] /\ NoDup(e.rl) ELSE e.rlok = 0, relays[g])
-    /\ V("groups") => Chk("ad", g, e.ad = (IF Exists(g) THEN groups[g].admins ELSE "!"), Exists(g))
-    /\ V("secrets") => Chk("sec", g, IF Exists(g) THEN e.secerr = 0 /\ {<<x.e, x.v>> : x \in Range(e.sec)} = Pairs2(secrets[g])
+    /\ V("relays") => ChkL(ln, "rl", g, IF Exists(g) THEN e.rlok = 1 /\ Range(e.rl) = relays[g] /\ NoDup(e.rl) ELSE e.rlok = 0, relays[g])
+    /\ V("groups") => ChkL(ln, "ad", g, e.ad = (IF Exists(g) THEN groups[g].admins ELSE "!"), Exists(g))
+    /\ V("secrets") => ChkL(ln, "sec", g, IF Exists(g) THEN e.secerr = 0 /\ {<<x.e, x.v>> : x \in Range(e.sec)} = Pairs2(secrets[g])
                                         ELSE e.secerr = NEpochs /\ e.sec = <<>>, secrets[g])
-    /\ V("msgs") => Chk("mc", g, IF Exists(g) THEN e.mok = 1 /\ e.mc = Sorted(g, "c") ELSE e.mok = 0, Sorted(g, "c"))
-    /\ V("msgs") => Chk("mp", g, IF Exists(g) THEN e.mp = Ids(Sorted(g, "p")) ELSE e.mp = <<>>, Ids(Sorted(g, "p")))
-    /\ V("msgs") => Chk("lc", g, IF ~Exists(g) THEN e.lc.id = -2 ELSE IF MsgSet(g) = {} THEN e.lc.id = -1 ELSE <<e.lc>> = LastMessage(g, "c"), LastMessage(g, "c"))
-    /\ V("msgs") => Chk("lp", g, IF ~Exists(g) THEN e.lp.id = -2 ELSE IF MsgSet(g) = {} THEN e.lp.id = -1 ELSE <<e.lp>> = LastMessage(g, "p"), LastMessage(g, "p"))
-    /\ V("msgs") => Chk("inv", g, Range(e.inv) = Invalidated(g) /\ NoDup(e.inv), Invalidated(g))
-    /\ V("proc") => Chk("invp", g, Range(e.invp) = InvalidatedProc(g) /\ NoDup(e.invp), InvalidatedProc(g))
-    /\ V("proc") => Chk("fail", g, Range(e.fail) = FailedForRetry(g) /\ NoDup(e.fail), FailedForRetry(g))
-    /\ V("snaps") => Chk("snaps", g, /\ Range(e.snaps) = SnapsOf(g) /\ NoDup(e.snaps)
+    /\ V("msgs") => ChkL(ln, "mc", g, IF Exists(g) THEN e.mok = 1 /\ e.mc = Sorted(g, "c") ELSE e.mok = 0, Sorted(g, "c"))
+    /\ V("msgs") => ChkL(ln, "mp", g, IF Exists(g) THEN e.mp = Ids(Sorted(g, "p")) ELSE e.mp = <<>>, Ids(Sorted(g, "p")))
+    /\ V("msgs") => ChkL(ln, "lc", g, IF ~Exists(g) THEN e.lc.id = -2 ELSE IF MsgSet(g) = {} THEN e.lc.id = -1 ELSE <<e.lc>> = LastMessage(g, "c"), LastMessage(g, "c"))
+    /\ V("msgs") => ChkL(ln, "lp", g, IF ~Exists(g) THEN e.lp.id = -2 ELSE IF MsgSet(g) = {} THEN e.lp.id = -1 ELSE <<e.lp>> = LastMessage(g, "p"), LastMessage(g, "p"))
+    /\ V("msgs") => ChkL(ln, "inv", g, Range(e.inv) = Invalidated(g) /\ NoDup(e.inv), Invalidated(g))
+    /\ V("proc") => ChkL(ln, "invp", g, Range(e.invp) = InvalidatedProc(g) /\ NoDup(e.invp), InvalidatedProc(g))
+    /\ V("proc") => ChkL(ln, "fail", g, Range(e.fail) = FailedForRetry(g) /\ NoDup(e.fail), FailedForRetry(g))
+    /\ V("snaps") => ChkL(ln, "snaps", g, /\ Range(e.snaps) = SnapsOf(g) /\ NoDup(e.snaps)
                                       /\ \A i, j \in 1..Len(e.snaps) : i < j => e.snaps[i].at <= e.snaps[j].at, SnapsOf(g))
-    /\ V("mls") => Chk("gd", g, {<<x.t, x.v>> : x \in Range(e.gd)} = Pairs2(mls[g].gd), mls[g].gd)
-    /\ V("mls") => Chk("lv", g, e.lv = LvVals(mls[g].lv), LvVals(mls[g].lv))
-    /\ V("mls") => Chk("pr", g, {<<x.r, x.v>> : x \in Range(e.pr)} = Pairs2(mls[g].pr) /\ NoDup(e.pr), mls[g].pr)
-    /\ V("mls") => Chk("prr", g, Range(e.prr) = DOMAIN mls[g].pr /\ NoDup(e.prr), DOMAIN mls[g].pr)
-    /\ V("mls") => Chk("ekp", g, {<<<<x.e, x.l>>, x.v>> : x \in Range(e.ekp)} = Pairs2(mls[g].ekp), mls[g].ekp)
+    /\ V("mls") => ChkL(ln, "gd", g, {<<x.t, x.v>> : x \in Range(e.gd)} = Pairs2(mls[g].gd), mls[g].gd)
+    /\ V("mls") => ChkL(ln, "lv", g, e.lv = LvVals(mls[g].lv), LvVals(mls[g].lv))
+    /\ V("mls") => ChkL(ln, "pr", g, {<<x.r, x.v>> : x \in Range(e.pr)} = Pairs2(mls[g].pr) /\ NoDup(e.pr), mls[g].pr)
+    /\ V("mls") => ChkL(ln, "prr", g, Range(e.prr) = DOMAIN mls[g].pr /\ NoDup(e.prr), DOMAIN mls[g].pr)
+    /\ V("mls") => ChkL(ln, "ekp", g, {<<<<x.e, x.l>>, x.v>> : x \in Range(e.ekp)} = Pairs2(mls[g].ekp), mls[g].ekp)
 
 ByNostrView == {[n |-> n] @@ groups[byNostr[n]] : n \in DOMAIN byNostr}
 AllMsgs == UNION {MsgSet(g) : g \in Groups}
 
-DumpOK(p) ==
-    /\ V("groups") => Chk("groups", "", Range(p.groups) = Img(groups) /\ NoDup(p.groups), Img(groups))
-    /\ V("groups") => Chk("gfind", "", Range(p.gfind) = Img(groups), Img(groups))
-    /\ V("groups") => Chk("bn", "", Range(p.bn) = ByNostrView, ByNostrView)
+DumpOK(p, ln) ==
+    /\ V("groups") => ChkL(ln, "groups", "", Range(p.groups) = Img(groups) /\ NoDup(p.groups), Img(groups))
+    /\ V("groups") => ChkL(ln, "gfind", "", Range(p.gfind) = Img(groups), Img(groups))
+    /\ V("groups") => ChkL(ln, "bn", "", Range(p.bn) = ByNostrView, ByNostrView)
     /\ {e.g : e \in Range(p.pg)} = Groups
-    /\ \A e \in Range(p.pg) : GroupOK(e)
-    /\ V("msgs") => Chk("fm", "", Range(p.fm) = AllMsgs, AllMsgs)
-    /\ V("proc") => Chk("pm", "", Range(p.pm) = Img(processed), Img(processed))
-    /\ V("welcomes") => Chk("wl", "", Range(p.wl) = Img(welcomes), Img(welcomes))
-    /\ V("welcomes") => Chk("pw", "", Range(p.pw) = Img(pwelcomes), Img(pwelcomes))
-    /\ V("welcomes") => Chk("pend", "", p.pend = Ids(Page(PendingSorted, DefLimit, 0)), Ids(PendingSorted))
-    /\ V("glob") => Chk("gl", "", {<<<<x.tbl, x.k>>, x.v>> : x \in Range(p.gl)} = Pairs2(glob), glob)
+    /\ \A e \in Range(p.pg) : GroupOK(e, ln)
+    /\ V("msgs") => ChkL(ln, "fm", "", Range(p.fm) = AllMsgs, AllMsgs)
+    /\ V("proc") => ChkL(ln, "pm", "", Range(p.pm) = Img(processed), Img(processed))
+    /\ V("welcomes") => ChkL(ln, "wl", "", Range(p.wl) = Img(welcomes), Img(welcomes))
+    /\ V("welcomes") => ChkL(ln, "pw", "", Range(p.pw) = Img(pwelcomes), Img(pwelcomes))
+    /\ V("welcomes") => ChkL(ln, "pend", "", p.pend = Ids(Page(PendingSorted, DefLimit, 0)), Ids(PendingSorted))
+    /\ V("glob") => ChkL(ln, "gl", "", {<<<<x.tbl, x.k>>, x.v>> : x \in Range(p.gl)} = Pairs2(glob), glob)
 
 \* the model's return value against the logged one
 ResOK == Chk("res", R.op, ret'.res = R.res, ret')
@@ -124,7 +125,7 @@ TraceNext ==
             /\ Track
             /\ ResOK
             \* (bound variables are rigid: priming DumpOK(R.post) directly would read the NEXT line)
-            /\ \E p \in {R.post} : DumpOK(p)'
+            /\ \E p \in {R.post}, ln \in {l} : DumpOK(p, ln)'
 
 TraceSpec == TraceInit /\ [][TraceNext]_tvars
 
